@@ -22,7 +22,7 @@ func init() {
 			"non-trivial = the file has >= 2 items and >= 1 traversal; distinct by source hash",
 		Assumptions: []string{"hclsyntax.ParseConfig/LexConfig define what the source says (C02/C14 are their monitors)"},
 		Quick:       Plan{Batches: 16, PerBatch: 1500, MinNonTrivial: 8000},
-		Thorough:    Plan{Batches: 64, PerBatch: 6000, MinNonTrivial: 150000},
+		Thorough:    Plan{Batches: 64, PerBatch: 30000, MinNonTrivial: 150000},
 		Case:        c10Case,
 	})
 }
